@@ -124,6 +124,13 @@ def run(argv):
 
     argv = argv + extra
 
+    # Reject values that cannot be read before they reach the option loop
+    for k in range(1, len(argv)):
+        if argv[k] == "":
+            verif.util.error("Empty argument")
+        if argv[k - 1] in ["-T", "-dpi"] and not argv[k].lstrip("-").isdigit():
+            verif.util.error("%s needs a whole number, got '%s'" % (argv[k - 1], argv[k]))
+
     # Read command line arguments
     i = 1
     while(i < len(argv)):
